@@ -10,6 +10,7 @@
   from the live soyhtml.PrintDirectives map (Gen/DirectiveTable.lean).
 -/
 import SoyVerif.Model.Escape
+import SoyVerif.Model.JsEscape2
 import SoyVerif.Gen.DirectiveTable
 
 namespace SoyVerif.Model.Directives
@@ -68,12 +69,10 @@ def insertWordBreaks (s : Bytes) (maxChars : Int) : Bytes :=
 
 /-! ## truncate -/
 
-/-- `for !utf8.RuneStart(str[maxLen]) { maxLen-- }`: `none` = index out of range
-    (str[-1] after running off the front, or maxLen ≥ len) -/
+/-- `for maxLen > 0 && !utf8.RuneStart(str[maxLen]) { maxLen-- }`: stops at index 0 without
+    looking at it; `none` = index out of range (maxLen ≥ len, which the caller excludes) -/
 def scanBack (str : Bytes) : Nat → Option Nat
-  | 0 => match str[0]? with
-    | some b => if runeStart b then some 0 else none
-    | none => none
+  | 0 => some 0
   | n + 1 => match str[n + 1]? with
     | some b => if runeStart b then some (n + 1) else scanBack str n
     | none => none
@@ -97,7 +96,7 @@ def truncate (str : Bytes) (args : List Arg) : Res Bytes :=
     | some e =>
       let cut : Int := if e && maxLen > 3 then maxLen - 3 else maxLen
       let e' : Bool := e && maxLen > 3
-      if cut < 0 then .panic                          -- str[maxLen] with a negative index
+      if cut < 0 then .panic                          -- str[:maxLen] with a negative bound
       else match scanBack str cut.toNat with
         | none => .panic
         | some k => .ok (str.take k ++ (if e' then ellipsisBytes else []))
@@ -125,7 +124,7 @@ def applyImpl (impl : Bytes) (v : Bytes) (args : List Arg) : Res Bytes :=
   else if impl == sDirectiveNoAutoescape then .ok v
   else if impl == sDirectiveEscapeHtml then .ok (goHtmlEscape v)
   else if impl == sDirectiveEscapeUri then .ok (queryEscape v)
-  else if impl == sDirectiveEscapeJsString then .ok (jsEscape v)
+  else if impl == sDirectiveEscapeJsString then .ok (jsEscapeFixed v)
   else if impl == sDirectiveJson then .ok (jsonString v)
   else if impl == sNil then .panic                   -- call of a nil func
   else .unmodelled
